@@ -23,24 +23,24 @@ META = {
                  "inside Coq against the real library on generated meshes (kernel-checked batches); an independent Python "
                  "oracle (fractions/math) restates the textbook definitions, invariance inside families of transformed "
                  "meshes, angle sums, Gauss-Bonnet and constant preservation on the implementation's outputs",
-    "level_text": "Machine-checked, unbounded theorems over R about the model (Props.v): C07_definitions (every formula = "
-                  "its textbook expression; full), C07_rigid_invariance (every rotation matrix R^T R = I, det 1, every "
-                  "translation, every well-formed mesh: all attributes invariant / equivariant, incl. vertex normals for the "
-                  "three weightings, circumcentres and the global sums and means; full), C07_scaling (powers s, s^2, s^3, 1: "
-                  "every formula AND every attribute of the scaled mesh, circumcentres included; full), "
-                  "C07_renumbering (vertex renumbering: per-edge/face/corner/cell attributes unchanged, per-vertex "
-                  "attributes - degree, border flags, angle defects, vertex normals, faces->vertices and corners->vertices "
-                  "interpolation - moved along sigma; face rotation: area of every polygon incl. the n-gon fan; permuting "
-                  "and rotating the face list with values and weights carried along leaves the faces->vertices accumulation "
-                  "unchanged (one generic commutative-accumulation lemma, instantiated for scalars and vectors); full), "
-                  "C07_angle_sum (pairs compose to (-1,0) AND atan2 of them sums to PI; full), C07_gauss_bonnet (every "
-                  "triangulation satisfying an explicit boolean-checkable manifold condition, closed or with border; full), "
-                  "C07_interpolate_constant (all six functions, all averaging weightings; full), C07_circumcenter "
-                  "(equidistant + in-plane whenever a point is returned; full), C07_face_normal_rotation_refuted "
-                  "(recorded finding: the normal of a skew quad depends on the start of its vertex list). The model is tied to "
-                  "the code by the translator and by kernel-evaluated correspondence batches over every function and "
-                  "option, including multi-step scenarios (persistent attributes, vertices moved, recomputation) whose "
-                  "stale-cache failures are recorded findings.",
+    "level_text": "Machine-checked, unbounded theorems over R about the model (Props.v). PROVED: C07_definitions (every "
+                  "geometry formula = its textbook expression; textbook areas of planar CONVEX quads (|AC x BD|/2) and n-gons "
+                  "(shoelace vector area), hypotheses convex_quad / convex_fan visible; means with divisor and clamp, total area, "
+                  "barycentres, degree, unit vertex normals, per-vertex angle defect, mesh-level cotangent weight), "
+                  "C07_rigid_invariance (every rotation matrix + translation, every well-formed mesh, all attributes incl. "
+                  "circumcentres), C07_scaling (every formula and every attribute of the scaled mesh, circumcentres and the "
+                  "relative parallelism guard included), C07_angle_sum (pairs compose to (-1,0) and atan2 of them sums to PI), "
+                  "C07_gauss_bonnet (every triangulation satisfying an explicit boolean-checkable manifold condition), "
+                  "C07_interpolate_constant (all six functions), C07_circumcenter (equidistant + in-plane WHEN a point is "
+                  "returned; no totality). PARTIAL: C07_renumbering_partial (vertex renumbering that keeps the order of the "
+                  "face, in-face and edge lists; face rotation for areas / triangle normals; face-list permutation for the "
+                  "faces->vertices accumulation with weights carried along - gaps listed in Props.v). REFUTED (recorded "
+                  "findings): C07_face_normal_rotation_refuted (skew quads), C07_nonconvex_face_refuted (planar non-convex "
+                  "faces: area, normal orientation, reflex corner angles). TESTED ONLY: everything about caches (persistent "
+                  "attributes reused after the vertices moved: recorded stale-cache findings, keyed by consumer and attribute), "
+                  "raising paths (non-triangular cotangent/defects, isolated vertices, n=0), non-manifold meshes (never "
+                  "generated), float round-off beyond 1e-9. The model is tied to the code by the translator and by "
+                  "kernel-evaluated correspondence batches; a disagreement is never forgiven.",
     "level_note": "Trusted: Coq kernel + vm_compute + PrimFloat; the C07 translator; the correspondence harness "
                   "(generators, driver, tolerance 1e-9(1+|x|) on exactly representable inputs, Python's math.cos/sin used "
                   "to relate an atan2 output to the model's (cos,sin) pair, math.atan2 itself identified with the angle in "
@@ -174,9 +174,34 @@ def segments(case, out):
 
 
 def case_terms(case, out):
-    return [case_term(dict(case, V=sg["V"], script=[c for _, c, _ in sg["items"]]),
-                      dict(out, angles=sg["angles"], out=[r for _, _, r in sg["items"]]))
-            for sg in segments(case, out) if sg["items"] or len(case["script"]) == 0]
+    """one Coq case per geometry segment.  Calls that read an attribute cached before the vertices moved are NOT sent:
+    the model describes the functions on the current coordinates, not mouette's caches (they are judged by the oracle
+    and the narrowly keyed stale-cache findings only)."""
+    stale = stale_reads(case["script"])
+    terms = []
+    for sg in segments(case, out):
+        items = [(k, c, r) for k, c, r in sg["items"] if not stale[k]]
+        if items or len(case["script"]) == 0:
+            terms.append(case_term(dict(case, V=sg["V"], script=[c for _, c, _ in items]),
+                                   dict(out, angles=sg["angles"], out=[r for _, _, r in items])))
+    return terms
+
+
+def dropped_observations(case, out):
+    """(sent, deliberately not sent, dropped) observation counts of a case - for the harness-coverage obligation"""
+    stale = stale_reads(case["script"])
+    sent = skipped = dropped = 0
+    for k, (c, r) in enumerate(zip(case["script"], out.get("out", []))):
+        if c[0] in ("move", "angles"):
+            skipped += 1          # moves are not observations; corner angles travel in c_ang
+        elif stale[k]:
+            skipped += 1
+        elif obs_term(c, r) is None:
+            dropped += 1          # an error result or a non-finite number: only the oracle sees it
+        else:
+            sent += 1
+    dropped += max(0, len(case["script"]) - len(out.get("out", [])))
+    return sent, skipped, dropped
 
 
 def case_term(case, out):
@@ -249,8 +274,12 @@ class Truth:
         return None
 
     def face_normal(self, f):
-        p = [self.P(v) for v in f[:3]]
-        n = G.cross(G.sub(p[1], p[0]), G.sub(p[2], p[0]))
+        """unit normal of the face's plane, counter-clockwise: the direction of its vector area (shoelace in 3-D).
+        A skew (non-planar) face has no plane: no textbook value (None)."""
+        pts = [self.P(v) for v in f]
+        if len(f) > 3 and not G.is_planar(pts):
+            return None
+        n = G.vector_area2(pts)
         l = fsqrt(G.dot(n, n))
         return [float(x) / l for x in n]
 
@@ -281,7 +310,20 @@ class Truth:
         return [(f[(i - 1) % len(f)], f[i], f[(i + 1) % len(f)], fi) for fi, f in enumerate(self.F) for i in range(len(f))]
 
     def angles(self):
-        return [self.angle(p, a, n) for (p, a, n, _) in self.corner_list()]
+        """interior angles: at a reflex corner of a planar face the interior angle is 2 pi minus the angle between the edges"""
+        out = []
+        for (p, a, n, fi) in self.corner_list():
+            th = self.angle(p, a, n)
+            f = self.F[fi]
+            if len(f) > 3:
+                pts = [self.P(v) for v in f]
+                if G.is_planar(pts):
+                    va = G.vector_area2(pts)
+                    turn = G.cross(G.sub(self.P(n), self.P(a)), G.sub(self.P(p), self.P(a)))
+                    if G.dot(turn, va) < 0:
+                        th = 2 * math.pi - th
+            out.append(th)
+        return out
 
     def und_edges(self):
         d = {}
@@ -346,6 +388,8 @@ def expected(T, edges, call):
         k = 0
         for fi, f in enumerate(T.F):
             nf = T.face_normal(f)
+            if nf is None:
+                return None
             for i, v in enumerate(f):
                 w = {"uniform": 1.0, "area": T.face_area(f), "angle": ang[k]}[call[1]]
                 if w is None:
@@ -547,7 +591,10 @@ def oracle_renumbering(base, bout, var, vout):
     ren = var["meta"]["renumber"]
     sigma = ren["sigma"]
     bad = []
-    planar_faces = not base.get("F") or all(G.is_planar([[Fr(x) for x in base["V"][u]] for u in f]) for f in base["F"])
+    skew_faces = set()
+    if base.get("F"):
+        skew_faces = {fi for fi, f in enumerate(base["F"]) if not G.is_planar([[Fr(x) for x in base["V"][u]] for u in f])}
+    skew_vertices = {u for fi in skew_faces for u in base["F"][fi]}
     for k, (call, rb, rv) in enumerate(zip(base["script"], bout["out"], vout["out"])):
         if "ok" not in rb or "ok" not in rv or not finite(rb["ok"]) or not finite(rv["ok"]):
             continue
@@ -559,11 +606,17 @@ def oracle_renumbering(base, bout, var, vout):
                 return len(x) == len(y) and all(same(p, q) for p, q in zip(x, y))
             return close(y, x)
         ok = True
-        skew = nm in ("vnormals", "face_normals") and not planar_faces
+        skew = False
         if nm in ("degree", "defects", "vnormals", "f2v", "c2v"):   # vertex-indexed
-            ok = all(same(b[u], v[sigma[u]]) for u in range(len(sigma)))
+            badv = [u for u in range(len(sigma)) if not same(b[u], v[sigma[u]])]
+            ok = not badv
+            # the recorded skew-quad finding only explains vertices that lie on a skew face
+            skew = nm == "vnormals" and bool(badv) and all(u in skew_vertices for u in badv)
         elif nm in ("face_area", "face_normals", "face_bary", "circum", "v2f", "c2f") and "order" in ren:   # face-indexed
-            ok = all(same(b[ren["order"][kk]], v[kk]) for kk in range(len(ren["order"])))
+            badf = [ren["order"][kk] for kk in range(len(ren["order"])) if not same(b[ren["order"][kk]], v[kk])]
+            ok = not badf
+            # ... and only faces that are themselves skew
+            skew = nm == "face_normals" and bool(badf) and all(fi in skew_faces for fi in badf)
         elif nm in ("cell_volume", "cell_bary") and "corder" in ren:
             ok = all(same(b[ren["corder"][kk]], v[kk]) for kk in range(len(ren["corder"])))
         elif nm in ("euler", "total_area", "bary", "mean_edge", "mean_area", "mean_vol") and (len(call) < 2 or call[1] is None):
@@ -671,20 +724,114 @@ WITNESS_SKEW = {"V": [[0.0, 0.0, 0.0], [1.0, 0.0, 0.0], [1.0, 1.0, 1.0], [0.0, 1
                 "script": [["face_normals", False, True]]}
 
 
-CONSUMERS = {"cot", "cw", "defects", "vnormals", "mean_area", "mean_vol", "total_area", "f2v", "c2v", "c2f"}
+def stale_reads(script):
+    """For every call of a script: the list of persistent attributes it READS that were computed before the vertices were
+    last moved (a small model of mouette's attribute caches: which call creates / reuses which named attribute).
+    State: attribute name -> True (computed from the current coordinates) | False (stale)."""
+    st = {}
+    res = []
+
+    def read(name, reads):
+        """the call uses the cached attribute if present; returns whether what it read is current"""
+        if name in st:
+            if not st[name]:
+                reads.append(name)
+            return st[name]
+        return None  # absent: will be computed afresh
+
+    for call in script:
+        nm = call[0]
+        reads = []
+        if nm == "move":
+            st = {k: False for k in st}
+        elif nm == "face_area":
+            if call[-2]:
+                st["area"] = True
+        elif nm == "face_normals":
+            if call[-2]:
+                st["normals"] = True
+        elif nm == "angles":
+            if call[-2]:
+                st["angles"] = True
+        elif nm == "cell_volume":
+            if call[-2]:
+                st["volume"] = True
+        elif nm == "cot":
+            a = read("angles", reads)
+            if call[-2]:
+                st["cotan"] = True if a is None else a
+        elif nm == "cw":
+            c = read("cotan", reads)
+            if c is None:
+                a = read("angles", reads)      # cotangent(mesh, persistent=persistent) consults the angles cache
+                if call[-2]:
+                    st["cotan"] = True if a is None else a
+        elif nm == "defects":
+            a = read("angles", reads)
+            if a is None and call[-2]:
+                st["angles"] = True
+        elif nm == "vnormals":
+            n_ = read("normals", reads)
+            if n_ is None and call[-2]:
+                st["normals"] = True
+            if call[1] == "area":
+                read("area", reads)
+            elif call[1] == "angle":
+                read("angles", reads)
+        elif nm == "mean_area":
+            if read("area", reads) is None:
+                st["area"] = True               # mean_face_area calls face_area(mesh): persistent by default
+        elif nm == "total_area":
+            read("area", reads)
+        elif nm == "mean_vol":
+            if read("volume", reads) is None:
+                st["volume"] = True
+        elif nm == "f2v":
+            if call[1] == "area":
+                read("area", reads)
+            elif call[1] == "angle":
+                read("angles", reads)
+        elif nm in ("c2v", "c2f"):
+            if call[1] == "angle":
+                read("angles", reads)
+        res.append(reads)
+    return res
 
 
 def stale_key(case, k):
-    """key of the stale-cache class if call k comes after a move that was preceded by a persistent computation"""
+    """narrow key of the stale-cache class: (consumer, the stale attribute it reads); None if call k reads nothing stale"""
     if k < 0:
         return None
-    sc = case["script"]
-    mv = [i for i, c in enumerate(sc[:k]) if c[0] == "move"]
-    if not mv or sc[k][0] not in CONSUMERS:
+    r = stale_reads(case["script"])[k]
+    return "stale-cache/%s/%s" % (case["script"][k][0], r[0]) if r else None
+
+
+def nonconvex_key(case, k, msg):
+    """key of the non-convex-face class if the failing element lies on a planar non-convex face"""
+    if k < 0 or not case.get("F") or case.get("C"):
         return None
-    if any(c[0] in G.PRODUCERS and c[-2] is True for c in sc[:mv[-1]]):
-        return "stale-cache/" + sc[k][0]
-    return None
+    V = case["V"]
+    for i_, c_ in enumerate(case["script"][:k]):
+        if c_[0] == "move":
+            V = c_[1]
+    Vx = [[Fr(x) for x in p] for p in V]
+    nc = set(G.nonconvex_faces(Vx, case["F"]))
+    if not nc:
+        return None
+    nm = case["script"][k][0]
+    import re as _re
+    m_ = _re.search(r"element (\d+)", msg)
+    el = int(m_.group(1)) if m_ else None
+    if nm in ("face_area", "face_normals"):
+        hit = el is not None and el in nc
+    elif nm == "angles":
+        cf = [fi for fi, f in enumerate(case["F"]) for _ in f]
+        hit = el is not None and el < len(cf) and cf[el] in nc
+    elif nm in ("total_area", "mean_area"):
+        hit = True
+    else:
+        hit = False
+    return "nonconvex-face/" + nm if hit else None
 
 
 def classify(call, msg):
@@ -769,6 +916,21 @@ def run(ctx):
         fam = gen_family(ctx.rng, fid, ctx.tier)
         fam_index.append((len(cases), len(fam)))
         cases += fam
+    n_nc = 12 if quick else 150
+    for nid in range(n_nc):
+        V, F = G.gen_nonconvex(ctx.rng)
+        pd_ = lambda: [ctx.rng.random() < 0.5, ctx.rng.random() < 0.5]  # noqa: E731
+        script = [["face_area"] + pd_(), ["face_normals"] + pd_(), ["angles"] + pd_(), ["total_area"], ["mean_area", None],
+                  ["face_bary"] + pd_(), ["edge_length"] + pd_(), ["degree"] + pd_(), ["euler"], ["bary"]]
+        ctx.rng.shuffle(script)
+        script = script[:ctx.rng.randint(5, 8)]
+        base = {"V": [[float(x) for x in p] for p in V], "F": F, "C": None, "script": script,
+                "meta": {"kind": "nonconvex", "family": "nonconvex-%d" % nid, "variant": "base"}}
+        V2, F2, _c2, ren = G.gen_renumbering(ctx.rng, V, F, None)
+        fam = [base, {"V": [[float(x) for x in p] for p in V2], "F": F2, "C": None, "script": script,
+                      "meta": {"kind": "nonconvex", "family": "nonconvex-%d" % nid, "variant": "renumber", "renumber": ren}}]
+        fam_index.append((len(cases), len(fam)))
+        cases += fam
     n_scen = 36 if quick else 400
     for sid in range(n_scen):
         kind, V, F, C, script = G.gen_scenario(ctx.rng)
@@ -790,7 +952,8 @@ def run(ctx):
                 ctx.count("interpolation into a preloaded output")
             elif len(call) >= 3 and isinstance(call[-1], bool):
                 ctx.count("persistent=%s dense=%s" % (call[-2], call[-1]))
-        ctx.case_seen([c["V"], c.get("F"), c.get("C"), c["script"]], nontrivial=nel >= 2,
+        ctx.case_seen([c["V"], c.get("F"), c.get("C"), c["script"]],
+                      nontrivial=nel >= 2 and any(x[0] not in ("move", "degree", "euler") for x in c["script"]),
                       sample={"V": c["V"][:6], "F": (c.get("F") or c.get("C"))[:6], "script": [x[:2] for x in c["script"]], "variant": m["variant"]})
 
     # 1. oracle on every case (textbook + consequences), then the relations inside each family
@@ -814,9 +977,29 @@ def run(ctx):
             for k, msg in rel:
                 if not any(fi == j and fk == k for fi, fk, _ in fails) and not any(fi == start and fk == k for fi, fk, _ in fails):
                     fails.append((j, k, msg))
+    # classify EVERY failing observation; the ones without a listed known-finding key come first
+    keyed = []
+    for i, k, msg in fails:
+        call = cases[i]["script"][k] if k >= 0 else None
+        keyed.append((i, k, msg, stale_key(cases[i], k) or nonconvex_key(cases[i], k, msg) or classify(call, msg)))
+    unknown = [f for f in keyed if not ctx.known(f[3])]
+    keyed = unknown + [f for f in keyed if ctx.known(f[3])]
     ctx.obligation("oracle: every value the implementation returned equals its textbook definition, is invariant/equivariant "
                    "inside its family, angle sums = pi, Gauss-Bonnet, constants preserved",
-                   "oracle-on-implementation", True, "%d failing observations" % len(fails))
+                   "oracle-on-implementation", not unknown,
+                   "%d failing observations, %d of them not instances of a listed known finding" % (len(fails), len(unknown)))
+    # harness coverage: observations that could not be sent to Coq (errors, non-finite numbers, build failures)
+    n_sent = n_skip = n_drop = 0
+    for c, o in zip(cases, outs):
+        if "build_error" in o:
+            n_drop += len(c["script"])
+            continue
+        a_, b_, c_ = dropped_observations(c, o)
+        n_sent, n_skip, n_drop = n_sent + a_, n_skip + b_, n_drop + c_
+    ctx.extra["observations"] = {"sent_to_coq": n_sent, "not_sent_by_design(moves, angle lists, stale-cache reads)": n_skip,
+                                 "dropped(errors / non-finite / build failures)": n_drop}
+    ctx.obligation("harness coverage: observations dropped before the kernel check <= 3%% (%d of %d)" % (n_drop, n_sent + n_drop),
+                   "harness", n_sent > 0 and n_drop <= 0.03 * (n_sent + n_drop) + 2, "sent %d, by design not sent %d, dropped %d" % (n_sent, n_skip, n_drop))
 
     # 2. kernel-checked correspondence
     bad = []
@@ -865,19 +1048,27 @@ def run(ctx):
         ms = oracle_case(ws, os_)
         if ms:
             ctx.violation(ms[0][1] + " after the vertices were moved (area attribute computed before the move)",
-                          {"case": ws, "observed": os_}, key="stale-cache/total_area")
+                          {"case": ws, "observed": os_}, key="stale-cache/total_area/area")
         else:
-            ctx.notes.append("recorded finding stale-cache/total_area no longer reproduces")
+            ctx.notes.append("recorded finding stale-cache/total_area/area no longer reproduces")
+        # non-convex planar face: the dart quad
+        wd = {"V": [[0.0, 0.0, 0.0], [2.0, 1.0, 0.0], [4.0, 0.0, 0.0], [2.0, 4.0, 0.0]], "F": [[0, 1, 2, 3]], "C": None,
+              "script": [["face_area", False, True], ["face_normals", False, True]]}
+        od = run_driver([wd], timeout=120)[0]
+        md = oracle_case(wd, od)
+        for k_, m_ in md:
+            ctx.violation(m_, {"case": wd, "observed": od}, key=nonconvex_key(wd, k_, m_) or "attr/" + wd["script"][k_][0])
+        if not md:
+            ctx.notes.append("recorded findings nonconvex-face/* no longer reproduce on the dart quad")
     except Exception as ex:  # noqa
         ctx.log("witness replay failed: %r" % ex)
 
     # 3. verdicts
     reported = set()
     shrink_deadline = time.time() + (40 if quick else 300)
-    for i, k, msg in fails[:400]:
+    for i, k, msg, key in keyed[:600]:
         case = cases[i]
         call = case["script"][k] if k >= 0 else None
-        key = stale_key(case, k) or classify(call, msg)
         if key in reported:
             continue
         reported.add(key)
@@ -899,18 +1090,10 @@ def run(ctx):
         ms = oracle_case(small, o)
         ctx.violation("%s" % (ms[0][1] if ms else msg), {"case": strip(small), "observed": o, "class": key,
                                                           "original_message": msg, "variant": case["meta"]["variant"]}, key=key)
-    failing_cases = {i for i, _, _ in fails}
-    unexplained = [i for i in bad if i not in failing_cases]
-    if unexplained:
-        ctx.notes.append("model and implementation disagree on cases %s although the oracle accepts the implementation's values" % unexplained[:8])
-        diag(ctx, [cases[i] for i in unexplained[:3]], [outs[i] for i in unexplained[:3]])
-    elif bad and fails:
-        # every disagreement is on a case the oracle also rejects: the correspondence is not what is broken
-        if all(ctx.known(stale_key(cases[i], k) or classify(cases[i]["script"][k] if k >= 0 else None, m)) for i, k, m in fails if i in bad):
-            for ob in ctx.obligations:
-                if ob["kind"] == "correspondence" and not ob["ok"]:
-                    ob["ok"] = True
-                    ob["detail"] += " (all disagreements are instances of listed known findings)"
+    # a disagreement between model and implementation is never forgiven: the obligation stays failed
+    if bad:
+        ctx.notes.append("model and implementation disagree on cases %s" % bad[:8])
+        diag(ctx, [cases[i] for i in bad[:3]], [outs[i] for i in bad[:3]])
 
 
 def diag(ctx, cs, os_):
@@ -920,9 +1103,9 @@ def diag(ctx, cs, os_):
         for c, o in zip(cs, os_):
             os.makedirs(ctx.casedir, exist_ok=True)
             p = os.path.join(ctx.casedir, "diag.v")
-            open(p, "w").write(hdr + "Eval vm_compute in (bad_obs %s).\n" % case_term(c, o))
+            open(p, "w").write(hdr + "".join("Eval vm_compute in (bad_obs %s).\n" % t for t in case_terms(c, o)))
             rc, out = core.sh("timeout 300 coqc -Q %s MV %s" % (core.TH, p), cwd=ctx.casedir, timeout=330)
-            sent = [cl[0] + _opts(cl) for cl, r in zip(c["script"], o["out"]) if obs_term(cl, r) is not None]
+            sent = [cl[0] + _opts(cl) for cl, r in zip(c["script"], o["out"]) if cl[0] != "move" and obs_term(cl, r) is not None]
             ctx.log("disagreement: bad_obs =", " ".join(out.split()[-12:]), "| observations sent:", sent, "| variant", c["meta"]["variant"])
     except Exception as ex:  # noqa
         ctx.log("diagnostic failed: %r" % ex)
